@@ -81,6 +81,29 @@ def enum_units(tier, seed):
         {"rom": "low", "files": {}, "ir": [org, {"k": "label", "n": "lb_loop"}, {"k": "data", "d": "db", "es": [L(0x77)]},
                                           {"k": "macro", "n": "m_c", "ps": ["p_cx"], "b": [{"k": "label", "n": "lb_loop"}, {"k": "data", "d": "dl", "es": [["id", "p_cx"]]}]},
                                           {"k": "call", "n": "m_c", "args": [["id", "lb_loop"]]}, {"k": "call", "n": "m_c", "args": [["id", "lb_later"]]}, {"k": "label", "n": "lb_later"}]},
+        # arguments that are known late (labels defined after the call) and are spelled like another parameter / like a label or a
+        # constant of the body: they mean what they mean at the call site
+        {"rom": "low", "files": {}, "ir": [org, M, {"k": "call", "n": "m_a", "args": [L(1), ["id", "p_ax"]]}, {"k": "data", "d": "db", "es": [L(0x99)]}, {"k": "label", "n": "p_ax"}]},
+        {"rom": "low", "files": {}, "ir": [org, M, {"k": "call", "n": "m_a", "args": [["bin", "&", ["id", "p_ay"], L(0xFF)], ["bin", "&", ["id", "p_ax"], L(0xFF)]]}, {"k": "label", "n": "p_ax"},
+                                          {"k": "data", "d": "db", "es": [L(0x98)]}, {"k": "label", "n": "p_ay"}]},
+        {"rom": "low", "files": {}, "ir": [org, {"k": "macro", "n": "m_c", "ps": ["p_cx"], "b": [{"k": "const", "n": "k_loc", "e": L(3), "eager": True}, {"k": "label", "n": "lb_loc"},
+                                                                                          {"k": "data", "d": "dl", "es": [["id", "p_cx"], ["id", "lb_loc"]]}, {"k": "data", "d": "db", "es": [["id", "k_loc"]]}]},
+                                          {"k": "call", "n": "m_c", "args": [["id", "lb_loc"]]}, {"k": "call", "n": "m_c", "args": [["bin", "+", ["id", "k_loc"], L(1)]]},
+                                          {"k": "label", "n": "lb_loc"}, {"k": "const", "n": "k_loc", "e": L(0x4455), "eager": False}]},
+        # names of a closed application (parameters, labels of the body) mean what they meant before, right after it: in the caller's
+        # body after a nested application, and at the call site
+        {"rom": "low", "files": {}, "ir": [org, {"k": "macro", "n": "m_put", "ps": ["p_v"], "b": [{"k": "data", "d": "db", "es": [["id", "p_v"]]}]},
+                                          {"k": "macro", "n": "m_pair", "ps": ["p_v"], "b": [{"k": "call", "n": "m_put", "args": [["bin", "+", ["id", "p_v"], L(1)]]}, {"k": "data", "d": "db", "es": [["id", "p_v"]]},
+                                                                                            {"k": "call", "n": "m_put", "args": [["bin", "+", ["id", "p_v"], L(2)]]}, {"k": "data", "d": "dw", "es": [["id", "p_v"]]}]},
+                                          {"k": "call", "n": "m_pair", "args": [L(5)]}, {"k": "call", "n": "m_pair", "args": [L(0x20)]}]},
+        {"rom": "low", "files": {}, "ir": [{"k": "const", "n": "p_v", "e": L(9), "eager": True}, org, {"k": "macro", "n": "m_put", "ps": ["p_v"], "b": [{"k": "data", "d": "db", "es": [["id", "p_v"]]}]},
+                                          {"k": "call", "n": "m_put", "args": [L(3)]}, {"k": "data", "d": "db", "es": [["id", "p_v"]]}, {"k": "call", "n": "m_put", "args": [L(4)]},
+                                          {"k": "ins", "m": "lda", "shape": ["#", None, None], "sfx": "b", "e": ["id", "p_v"]}]},
+        {"rom": "low", "files": {}, "ir": [org, {"k": "macro", "n": "m_delay", "ps": ["p_n"], "b": [{"k": "label", "n": "lb_loop"}, {"k": "data", "d": "db", "es": [["id", "p_n"]]},
+                                                                                              {"k": "ins", "m": "bne", "shape": ["", None, None], "sfx": "", "e": ["id", "lb_loop"]}]},
+                                          {"k": "label", "n": "lb_loop"}, {"k": "call", "n": "m_delay", "args": [L(3)]}, {"k": "data", "d": "db", "es": [L(0x88)]},
+                                          {"k": "ins", "m": "bne", "shape": ["", None, None], "sfx": "", "e": ["id", "lb_loop"]}, {"k": "data", "d": "dl", "es": [["id", "lb_loop"]]},
+                                          {"k": "call", "n": "m_delay", "args": [L(4)]}, {"k": "data", "d": "dl", "es": [["id", "lb_loop"]]}]},
         # a late-resolved parameter passed on to a nested application while a global constant has the parameter's name
         {"rom": "high", "files": {}, "ir": [{"k": "const", "n": "p_ay", "e": L(5), "eager": True}, {"k": "org", "a": 0x500003},
                                            {"k": "macro", "n": "m_a", "ps": ["p_ax", "p_ay"], "b": [
